@@ -3,6 +3,7 @@ import Proofs.DasForeign
 import Proofs.DasFlat
 import Proofs.DasTotal
 import Proofs.DasIds
+import Proofs.DasCanon
 /-!
   C08 — attributes survive the DAS.  Model: `PydapModel/DasText.lean` (follows parsers/das.py and
   responses/das.py *after* the two fixes: `float()` under Float32/Float64; size-0 values skipped everywhere).
@@ -222,6 +223,25 @@ theorem C08_foreign_flat_text (name : Text) (cs : List Var) (kw w0 w1 : Text) (i
       = some (.ok (flatExpected cs (denoteItems [] (eraseItems its)))) := by
   rw [fparse kw w0 w1 its trail hkw h0 h1 hok]
   simp [Except.toOption, flat_attach name cs _ hG hself]
+
+/-- **the DAS text cannot tell `[x]` from `x`, nor carry `[]`**: a dataset and its normal form (`canonDs`: every
+    one-element list replaced by its element, every empty list dropped, at any depth) are served as the SAME text.
+    This is inherent to the DAS format (an attribute is a type, a name and one or more values); no parser can return
+    both spellings, so finding C08.short_list cannot be repaired on either side. -/
+theorem C08_das_text_spelling (ds : Dataset) : dasText (canonDs ds) = dasText ds :=
+  dasText_canon ds
+
+/-- **whole-dataset round trip, short lists included, modulo that spelling**: for every dataset of the DAS-safe domain
+    — one-element and empty lists allowed anywhere — whose NORMAL FORM satisfies the collision guards, the client holds
+    exactly the normal form: every variable its own attributes with `[x]` read back as `x` and `[]` absent, everything
+    else (names, nesting, tokens, Python types, lists of two or more) unchanged.  On datasets without short lists
+    this is `C08_roundtrip_partial`. -/
+theorem C08_roundtrip_canon (ds : Dataset) (hok : DsOk ds) (hg : Guard (canonDs ds)) :
+    roundTrip ds = some (.ok (expected (canonDs ds))) := by
+  rw [← roundTrip_canon]
+  unfold roundTrip
+  rw [parse_print _ (dsOk_canon ds hok), denote_ds _ hg.1 hg.2.1 hg.2.2]
+  simp only [attach_tree _ hg.1, expected]
 
 /-! ### the client pipeline over histories of openings; `add_attributes` consumes its argument -/
 
@@ -443,6 +463,18 @@ example : VarsNames exTmpl ∧ (exTmpl.map Var.name).Nodup := by
 example : attachStep [("s".toList, .dict [("a".toList, .dict [("x".toList, .sc (.num "1".toList false))])]),
                       ("s.a".toList, .dict [("y".toList, .sc (.num "2".toList false))])] ["s".toList, "a".toList] []
     = .ok ([("s".toList, .dict [])], [("y".toList, .sc (.num "2".toList false)), ("x".toList, .sc (.num "1".toList false))]) := rfl
+-- short lists: the witness of C08.short_list is in the domain of `C08_roundtrip_canon`; its normal form holds `x = 5`
+example : DsOk wShort ∧ Guard (canonDs wShort) := by
+  refine ⟨wShort_ok, ⟨?_, by decide, by unfold NoDot; decide, (by intro e h; cases h), by decide⟩, trivial, ?_⟩
+  · exact ⟨⟨by decide, rfl⟩, trivial⟩
+  · exact ⟨⟨trivial, trivial⟩, trivial⟩
+example : expected (canonDs wShort) = ⟨[], [(["a".toList], [("x".toList, .sc (.num "5".toList false))])]⟩ := rfl
+example : canonAttrs [("e".toList, .list []), ("x".toList, .list [.num "5".toList false]),
+                      ("l".toList, .list [.num "1".toList false, .num "2".toList false])]
+    = [("x".toList, .sc (.num "5".toList false)), ("l".toList, .list [.num "1".toList false, .num "2".toList false])] := rfl
+-- keep-around rule over a whole tree: a Grid attribute `x = ""` named like the member `x` and a plain global named like
+-- the dataset are inside the guards of `C08_roundtrip_partial` (before the repair: lost / TypeError)
+example : Guard wKeep := wKeep_guard
 -- histories: a history that opens the same dataset three times satisfies the hypothesis of `C08_history_roundtrip`
 example : ∀ ds ∈ [exSmall, exSmall, exSmall], DsOk ds ∧ Guard ds := by
   intro ds h; simp at h; subst h; exact ⟨exSmall_ok, exSmall_guard⟩
